@@ -59,6 +59,31 @@ def run(ctx):
                 node, form, elem, idx = loop
                 # the call must be an unconditional top-level statement of the loop body
                 if not any(stmt is s for s in node.body):
+                    # a guard that only skips lists too short to have more than one arrangement of motifs (`if len(xs) > 1`,
+                    # `if xs:`) leaves the measure untouched; `> 2` skips a two-stub list, whose two orders give the same
+                    # single motif on the same two vertices (undirected) - not decided here, not accused
+                    conds_ = rules.path_conditions(g.par, stmt, upto=node)
+                    harmless = None
+                    if len(conds_) == 1:
+                        t_, pol_ = conds_[0]
+                        if pol_ and isinstance(t_, ast.Name) and t_.id == elem:
+                            harmless = "empty"
+                        else:
+                            c_ = rules.compare_with_pivot(t_, lambda x: isinstance(x, ast.Call) and txt(x.func) == "len" and len(x.args) == 1 and txt(x.args[0]) == elem, negated=not pol_)
+                            v_ = astx.const_value(c_[1]) if c_ is not None else None
+                            if c_ is not None and isinstance(v_, int):
+                                lim = v_ if c_[0] == ">" else (v_ - 1 if c_[0] == ">=" else (v_ if c_[0] == "!=" and v_ == 0 else None))
+                                if lim is not None and lim <= 1:
+                                    harmless = "short"
+                                elif lim == 2:
+                                    harmless = "two"
+                    if harmless in ("empty", "short"):
+                        o1.holds(fn, call, f"the shuffle is skipped only for a stub list with at most one element (`{txt(conds_[0][0])}`), which has a single order")
+                        continue
+                    if harmless == "two":
+                        o1.undecided(f"the shuffle is skipped for stub lists of up to two elements (`{txt(conds_[0][0])}`): the two orders of a two-stub list give the same motif on the same "
+                                     "vertices unless the builder is direction-sensitive - not decided", fn, call)
+                        continue
                     o1.violated(fn, call, "the shuffle is conditional inside the loop over the stub lists: some topology may be left unshuffled")
                     continue
                 before = node.body[: [i for i, s in enumerate(node.body) if s is stmt][0]]
